@@ -100,6 +100,9 @@ print("done");
         "derive-of": "for a in P { try { var S = a; #[derive(S)] class D {} } catch e {} }",
         "construct-of": "for a in P { try { var z = a.new(); } catch e {} try { var z = a.new(a); } catch e {} }",
         "iter-protocol": "for a in P { try { var it = a.iter(); it.next(); it.next(); it.next(); } catch e {} }",
+        "iterate-while-shrinking": "for n in [1, 2, 3, 5] { for k in [0, 1, 2, 3, 4] { try { var v = []; var i = 0; while i < n { v.push(i); i = i + 1; } var it = v.iter(); var j = 0; while j < k { it.next(); j = j + 1; } "
+                                   "v.pop(); v.pop(); it.next(); v.clear(); it.next(); it.next(); var s = \"abcé\"; var si = s.iter(); si.next(); si.next(); si.next(); si.next(); si.next(); si.next(); "
+                                   "var t = (1, 2).iter(); t.next(); t.next(); t.next(); t.next(); var r = (0..2).iter(); r.next(); r.next(); r.next(); r.next(); } catch e {} } }",
         "adapters": "for a in P { try { var z = [1, 2].iter().map(a).collect(); } catch e {} try { var z = [1, 2].iter().filter(a).collect(); } catch e {} try { var z = [1, 2].iter().reduce(a, a); } catch e {} }",
     }
     for k, body in misc.items():
